@@ -265,6 +265,15 @@ def check(P, R):
     masks = {d.name for n in mf.cfg.nodes for d in mf.rd.gen.get(n, []) if d.value is not None and isinstance(d.value, ast.Call)
              and dotted(d.value.func) == 're.compile'}
     R.require(masks, 'make_filter: compiled mask variable not found')
+    # the rule author's expression is compiled as written: a flag changes the set of texts it matches
+    for c_ in walk_shallow(mf.node):
+        if isinstance(c_, ast.Call) and dotted(c_.func) == 're.compile':
+            flags = list(c_.args[1:]) + [k.value for k in c_.keywords if k.arg == 'flags']
+            live = [fl for fl in flags if not (isinstance(fl, ast.Constant) and fl.value == 0)]
+            R.ob('C01.a', mf, c_, not live, text=f'{short(c_)}: the filter expression is compiled as written (no flags)', detail='' if not live else
+                 f'`{short(c_)}` compiles every filter expression with `{short(live[0])}`: the texts a wildcard accepts are no longer those of the rule\'s own expression '
+                 f'(re.ASCII narrows \\w / \\d / \\s - `/u/<name:re(\\w+)>` stops matching `/u/zoë`; IGNORECASE / DOTALL / VERBOSE widen or re-read it)',
+                 why='the router selects exactly the route a rule-by-rule matcher selects', key_extra='mask-flags')
     # a handler may also be an instance of a small callable class of the package built here (`handler = _MaskFilter(mask, f_in)`): its __call__ is the sibling,
     # and the attribute that __init__ fills from the constructor argument holding the compiled mask is the mask
     mask_recv = {id(h_): set(masks) for h_ in sibs}
@@ -560,6 +569,9 @@ def check(P, R):
 
     # ---- h: the route dispatched is the one the tree lookup selected
     R.rule('C01.h', 'the dispatched route comes from the tree lookup only', floor=1)
+    # ... and the lookup recognises a stored route by its truth value (`if pnode[DATA]`): a route object is never falsy
+    from . import c02 as _c02
+    _c02.check_truthy_classes(P, R, 'C01.h', 'the router selects exactly the route a rule-by-rule matcher selects: a registered literal rule wins over its wildcard sibling')
     # the object whose method table is consulted: `route[methods]`, `route.<lookup>(methods)`, or (a lookup written out) `route._methods`
     uses = [x for x in walk_shallow(rs.node) if isinstance(x, ast.Subscript) and isinstance(x.ctx, ast.Load) and isinstance(x.value, ast.Name)
             and src(x.slice) == rs.params[2]]
